@@ -29,7 +29,7 @@ STUB = ['character producer', 'response consumer', 'DUT output table']
 ASSUMPTIONS = ['a new O<n>? is only sent after the previous response\'s "!" was taken (the encoder ignores start while busy; the statement does not forbid that)',
                'the consumer asserts READY independently of VALID (the encoder waits for READY before raising VALID)']
 PROBES = ['cmd_I', 'cmd_V', 'cmd_O', 'cmd_K', 'K_zero', 'long_number', 'back_to_back_chars', 'consumer_stall', 'response', 'leading_zero_digit',
-          'start_in_first_idle_cycle', 'more_digits_than_value_bits', 'K_count_wider_than_wires']
+          'two_encoders', 'consumer_in_own_clock_domain', 'abandoned_mid_response', 'start_in_first_idle_cycle', 'more_digits_than_value_bits', 'K_count_wider_than_wires']
 
 HEX = '0123456789ABCDEF'
 
@@ -63,6 +63,17 @@ def gen(rs, tier, index):
         scn['table'] = [rng.getrandbits(32) for _ in range(16)]
         scn['size'] = rng.randint(1, 8)
     scn['cmds'] = cmds
+    if mode == 'resp':
+        fr = rs.get('faults')
+        # dual: a second encoder (another UART channel) in the same system answers at overlapping times
+        scn['dual'] = fr.random() < 0.3
+        # cut: the run is abandoned this many cycles into one more response (the bench is stopped mid-response; a later
+        # run in the same process must not see anything of it)
+        scn['cut'] = fr.choice([None, None, 1, 3, 6])
+        # sink: the consumer is a clocked block of the design (READY from a seeded pattern), optionally in a clock domain
+        # of its own, instead of the test bench
+        scn['sink'] = fr.choice([None, None, 'block', 'block_own_driver'])
+        scn['pattern'] = [1 if fr.random() < scn['p_ready'] else 0 for _ in range(fr.randint(1, 9))] + [1]
     return scn
 
 
@@ -203,7 +214,94 @@ def run_req(scn, log, st, chain):
         st.nontrivial = True
 
 
+class _Sink(py4hw.Logic):
+    """ready/valid character consumer as a clocked block: READY follows a fixed pattern"""
+
+    def __init__(self, parent, name, ready, valid, v, pattern):
+        super().__init__(parent, name)
+        self.ready = self.addOut('ready', ready)
+        self.valid = self.addIn('valid', valid)
+        self.v = self.addIn('v', v)
+        self.pattern = pattern
+        self.t = 0
+        self.chars = []
+
+    def clock(self):
+        if self.valid.get() and self.ready.get():
+            self.chars.append(chr(self.v.get()))
+        self.ready.prepare(self.pattern[self.t % len(self.pattern)])
+        self.t += 1
+
+
+def run_resp_blocksink(scn, log, st):
+    """the consumer is a block of the design (own clock domain optional); 1-2 encoders answer at the same time"""
+    hw = py4hw.HWSystem()
+    wvin = scn.get('wvin', 32)
+    chans = []
+    for tag in (['a', 'b'] if scn.get('dual') else ['a']):
+        vin, size, start = hw.wire(tag + 'vin', wvin), hw.wire(tag + 'size', 4), hw.wire(tag + 'start')
+        ready, valid, v = hw.wire(tag + 'ready'), hw.wire(tag + 'valid'), hw.wire(tag + 'v', 8)
+        pat = list(scn['pattern']) if tag == 'a' else list(reversed(scn['pattern']))
+        sink = _Sink(hw, tag + 'sink', ready, valid, v, pat)
+        if scn['sink'] == 'block_own_driver':
+            sink.clockDriver = py4hw.ClockDriver('clk_' + tag, base=hw.clockDriver)
+            st.probe('consumer_in_own_clock_domain')
+        CMDResponse(hw, tag + 'resp', vin, size, start, ready, valid, v)
+        chans.append({'vin': vin, 'size': size, 'start': start, 'sink': sink, 'exp': ''})
+    if len(chans) > 1:
+        st.probe('two_encoders')
+    with quiet():
+        sim = hw.getSimulator()
+    seams.EdgeShuffler(sim, random.Random(scn['perm_seed']), st)
+    prng = random.Random(scn['prod_seed'])
+    with quiet():
+        sim.clk(2)
+    for ri, cm in enumerate(scn['cmds']):
+        for ci, ch in enumerate(chans):
+            val = (cm['v'] if ci == 0 else (cm['v'] * 2654435761 + ri)) & ((1 << wvin) - 1)
+            sz = cm['size'] if ci == 0 else 1 + (cm['size'] + ri) % 8
+            ch['vin'].put(val)
+            ch['size'].put(sz)
+            ch['start'].put(1)
+            ch['exp'] += '=' + ''.join(HEX[(val >> (4 * k)) & 0xF] for k in range(sz - 1, -1, -1)) + '!'
+        with quiet():
+            sim.clk(1)
+        for ch in chans:
+            ch['start'].put(0)
+        budget = 60 + 12 * len(scn['pattern']) * 10
+        n = 0
+        while n < budget and any(len(ch['sink'].chars) < len(ch['exp']) for ch in chans):
+            with quiet():
+                sim.clk(1)
+            n += 1
+            st.cycles += 1
+        st.probe('response')
+        for ci, ch in enumerate(chans):
+            got = ''.join(ch['sink'].chars)
+            log.add(ri, ci, ch['exp'], got)
+            if got != ch['exp']:
+                cls = 'progress' if ch['exp'].startswith(got) else 'chars'
+                raise Violation('codec', 'encode:%s' % cls, ri, 'encoder %d, response %d: got %r expected %r (consumer is a block, pattern %s, %s)' % (
+                    ci, ri, got[-24:], ch['exp'][-24:], scn['pattern'], scn['sink']))
+        with quiet():
+            sim.clk(cm.get('gap', 3) + 2)
+    if scn.get('cut') is not None:
+        for ch in chans:
+            ch['vin'].put(0xDEADBEEF & ((1 << wvin) - 1))
+            ch['size'].put(8)
+            ch['start'].put(1)
+        with quiet():
+            sim.clk(1 + scn['cut'])
+        st.fault('abandoned_mid_response')
+        st.probe('abandoned_mid_response')
+    seams.check_prepared_empty('end', 0)
+    seams.check_wire_ranges(hw, 'end', 0)
+    st.nontrivial = len(scn['cmds']) >= 2 and 0 in scn['pattern']
+
+
 def run_resp(scn, log, st):
+    if scn.get('sink'):
+        return run_resp_blocksink(scn, log, st)
     hw = py4hw.HWSystem()
     wvin = scn.get('wvin', 32)
     vin, size, start = hw.wire('vin', wvin), hw.wire('size', 4), hw.wire('start_resp')
@@ -263,6 +361,15 @@ def run_resp(scn, log, st):
             st.probe('start_in_first_idle_cycle')
         with quiet():
             sim.clk(cm.get('gap', 3))
+    if scn.get('cut') is not None:
+        vin.put(0xDEADBEEF & ((1 << wvin) - 1))
+        size.put(8)
+        start.put(1)
+        ready.put(1)
+        with quiet():
+            sim.clk(1 + scn['cut'])
+        st.fault('abandoned_mid_response')
+        st.probe('abandoned_mid_response')
     seams.check_prepared_empty('end', t)
     seams.check_wire_ranges(hw, 'end', t)
     if len(scn['cmds']) >= 2 and st.probes.get('consumer_stall'):
@@ -277,6 +384,12 @@ def shrink(scn):
         yield dict(scn, p_gap=0.0)
     if scn.get('wvin', 32) != 32:
         yield dict(scn, wvin=32)
+    if scn.get('dual'):
+        yield dict(scn, dual=False)
+    if scn.get('cut') is not None:
+        yield dict(scn, cut=None)
+    if scn.get('sink') == 'block_own_driver':
+        yield dict(scn, sink='block')
     for i, cm in enumerate(scn['cmds']):
         if cm.get('gap') not in (None, 3):
             c2 = dict(scn)
